@@ -32,7 +32,7 @@ func init() {
 var ordExempt = map[string]string{
 	"self-insert:tracked-refs": "inserts into the map it ranges over: inserted entries satisfy path == key and are skipped by the same loop; duplicate inserts are field-wise equal (assumed, not decided)",
 	"cross-entry:tracked-refs": "the callee has cross-entry effects; the parents fix-up at the end of the callee re-points entries that referred to the removed one (assumed, not decided)",
-	"group-first:RefRevIdx":       "first ref seen represents its group: members of a group have equal normalised paths and consumers use only the normalised path, the fragment base name and RebaseRef (assumed, not decided)",
+	"group-first:RefRevIdx":    "first ref seen represents its group: members of a group have equal normalised paths and consumers use only the normalised path, the fragment base name and RebaseRef (assumed, not decided)",
 }
 
 // rangedField: the struct field a ranged expression ends in ("context.newRefs"), following local aliases.
